@@ -67,6 +67,13 @@ def lattice(tier):
                     continue
                 if x != 0 and abs(x) != float("inf"):
                     yield x
+    # seeded random mantissas (17 significant digits) in every exponent class and both signs: two-stage rounding errors show up for
+    # a few percent of arbitrary mantissas only
+    import random as _r
+    rr = _r.Random(20260928 + (0 if tier == "quick" else 1))
+    for _ in range(4000 if tier == "quick" else 40000):
+        e = rr.choice([-120, -37, -12, -9, -5, -3, -1, 0, 1, 3, 5, 6, 7, 8, 9, 10, 12, 15, 16, 30, 99, 100, 250])
+        yield float("%.16fe%d" % (rr.uniform(1.0, 9.999999), e)) * rr.choice([1.0, -1.0])
     # exact rounding ties at every digit position (the branch boundaries of the formatters are of this form): 9...9.9...95
     for a in range(0, 17):
         for b in range(0, 17 - a):
@@ -229,10 +236,13 @@ def cards_part(run, bulk):
                 continue
             run.trace_validated()
             # comma-separated rendering of the same card reads identically
-            if fmt == 8:
+            if True:
+                # free-field form of the same card, reals in the digits the writer itself produced (8-character fields for wtcard8,
+                # 16-character fields otherwise: first lines then run well beyond column 72)
+                ffmt = {"wtcard8": bulk.format_float8, "wtcard16": bulk.format_float16, "wtcard16d": bulk.format_double16}[wname]
                 strs = []
                 for k, v in zip(kinds, vals):
-                    strs.append("" if k == "b" else (bulk.format_float8(v).strip() if k == "r" else str(v)))
+                    strs.append("" if k == "b" else (ffmt(v).strip() if k == "r" else str(v)))
                 clines = []
                 for i in range(0, len(strs), 8):
                     # a free-field continuation line may start with "+", a blank or directly with the comma
@@ -269,6 +279,12 @@ def cards_part(run, bulk):
                     except Exception as ex:
                         run.violation("rdcards(keep_name=%s) raised %r on short free-field lines" % (kn, ex), dict(case, text=slines), {"fn": "comma"})
                         continue
+                    if kn and gs is not None and gf is not None:
+                        # the large-field form carries its "*" in the name: the DATA fields are what must agree
+                        if any(str(c_[0]).rstrip("*") != "TGT" for c_ in list(gs) + list(gf)):
+                            run.violation("rdcards(keep_name=True) does not return the card name first", dict(case, fixed=repr(gf), comma=repr(gs)), {"fn": "comma"})
+                        gs = [c_[1:] for c_ in gs]
+                        gf = [c_[1:] for c_ in gf]
                     if gs is None or gf is None or len(gs) != 2 or trim(gs[0]) != trim(gf[0]) or trim(gs[1]) != trim(gf[1]):
                         run.violation("fixed-field and free-field (short lines, keep_name=%s) forms of the same card read differently" % kn,
                                       dict(case, fixed=repr(gf), comma=repr(gs), text=slines), {"fn": "comma", "keep_name": kn})
